@@ -136,3 +136,56 @@ func vhRender(v resp.Value) string {
 	}
 	return v.String()
 }
+
+// VH_C18_sandbox: the global environment of a pooled interpreter is exactly the allow-list (concrete run of the real
+// pool constructor and VM; nothing symbolic here except the choice of probe): no io / package / debug / load /
+// require / dofile, os reduced to clock and difftime, and a script cannot create a global, directly or through _G.
+//verif:cfg b_probes=16_scripts+enumeration_of_the_global_table ignorego=1
+func VH_C18_sandbox() {
+	s, _ := vhGateServer()
+	L, err := s.luapool.Get()
+	vassert("C18.K4.pool_get", err == nil)
+	allowed := map[string]bool{"_G": true, "_VERSION": true, "_GOPHER_LUA_VERSION": true, "tonumber": true, "tostring": true,
+		"table": true, "math": true, "string": true, "os": true, "tile38": true, "json": true}
+	extra, n := "", 0
+	L.G.Global.ForEach(func(k, v lua.LValue) {
+		n++
+		if !allowed[k.String()] {
+			extra += k.String() + " "
+		}
+	})
+	vassert("C18.K4.globals_are_exactly_the_allow_list", extra == "" && n == len(allowed))
+	osn, osbad := 0, false
+	if t, ok := L.GetGlobal("os").(*lua.LTable); ok {
+		t.ForEach(func(k, v lua.LValue) {
+			osn++
+			if k.String() != "clock" && k.String() != "difftime" {
+				osbad = true
+			}
+		})
+	}
+	vassert("C18.K4.os_is_clock_and_difftime_only", osn == 2 && !osbad)
+	s.luapool.Put(L)
+	probes := [][2]string{
+		// {script, "err" = must fail | "nil" = must return nil}
+		{"x = 1 return 1", "err"}, {"_G.x = 1 return 1", "err"}, {"_G['y'] = 1 return 1", "err"},
+		{"local t = _G t.z = 1 return 1", "err"}, {"function f() end return 1", "err"},
+		{"return io", "nil"}, {"return require", "nil"}, {"return dofile", "nil"}, {"return loadfile", "nil"},
+		{"return load", "nil"}, {"return loadstring", "nil"}, {"return package", "nil"}, {"return debug", "nil"},
+		{"return rawset", "nil"}, {"return setmetatable", "nil"}, {"return os.execute", "nil"},
+	}
+	p := probes[vchoose(len(probes))]
+	before := vhSnapshot(s)
+	r, _, e := vhDo(s, "EVAL", p[0], "0")
+	if p[1] == "err" {
+		vassert("C18.K4.creating_a_global_is_refused", e != nil)
+	} else {
+		vassert("C18.K4.forbidden_library_is_absent", e == nil && r.IsNull())
+	}
+	vassert("C18.K4.probe_changes_nothing", vhSnapshot(s) == before)
+	L2, _ := s.luapool.Get()
+	leaked := L2.GetGlobal("x") != lua.LNil || L2.GetGlobal("y") != lua.LNil || L2.GetGlobal("z") != lua.LNil || L2.GetGlobal("f") != lua.LNil
+	vassert("C18.K4.no_global_was_created", !leaked)
+	s.luapool.Put(L2)
+	vobs("sandbox", p[0])
+}
